@@ -73,7 +73,12 @@ func run(pass *analysis.Pass) (any, error) {
 		if (expr.Op == token.EQL && !val) || (expr.Op == token.NEQ && val) {
 			op = "!"
 		}
-		r := op + report.Render(pass, other)
+		rendered := report.Render(pass, other)
+		if _, ok := other.(*ast.BinaryExpr); ok && op != "" {
+			// the negation binds tighter than the operand's operator
+			rendered = "(" + rendered + ")"
+		}
+		r := op + rendered
 		l1 := len(r)
 		r = strings.TrimLeft(r, "!")
 		if (l1-len(r))%2 == 1 {
